@@ -12,7 +12,9 @@ sys.path.insert(0, os.path.dirname(os.path.dirname(os.path.abspath(__file__))))
 REGISTRY = {
     "C01": "matching",
     "C02": "matching",
+    "C03": "passfail",
     "C04": "ap",
+    "C07": "frames",
     "C05": "clear",
 }
 
